@@ -508,6 +508,120 @@ def run(ctx):
                     'transaction counter moves backwards' % (', '.join(srcs) or e.brief(80), '; '.join(problems[:3]))), entry=b.root)
     ctx.floor('HEADER-ID', 1)
 
+    # ------------------------------------------------------------------ 8. who may overwrite, rename or delete durable files
+    # closed-world rule over every file-system writer in the module: a durable file (active log, rotated log, published
+    # snapshot) is never opened truncating / created over / written in place, renamed only by rotate (log) and checkpoint
+    # (temp -> snapshot), and deleted only by the two clean-up routines (never the active log) — everything else that is
+    # created or removed is a temp file, the lock marker or the key file.
+    WRITER = (r'OpenOptions::open$|fs::File::create$|fs::File::create_new$|^std::fs::(write|remove_file|rename|copy|hard_link|remove_dir_all)$|'
+              r'fs::File::set_len$|^tokio::fs::(write|remove_file|rename|copy)')
+    active_tpl_txt = ''.join(v for k, v in active_tpl) if active_tpl and all(k == 'lit' for k, v in active_tpl) else None
+
+    def tags(bd, e):
+        t = set()
+        txt = e.show()
+        if e.mentions_call(r'Path::with_extension$') is not None:
+            t.add('tmp')
+        if 'LOCK_FILE_NAME' in txt:
+            t.add('lock')
+        if 'HMAC_KEY_FILE_NAME' in txt or 'KEY_FILE' in txt:
+            t.add('key')
+        if e.mentions_call(r'::find_wal_files$') is not None:
+            t.add('found-wal')
+        if e.mentions_call(r'::find_snapshots$') is not None:
+            t.add('found-snap')
+        if e.mentions_call(r'::generate_snapshot_path$') is not None and 'tmp' not in t:
+            t.add('snapshot')
+        for x in e.walk():
+            if x.k == 'field' and x.b == WW + '::path':
+                t.add('walpath')
+            if x.k == 'param' and bd.root.startswith(WW + '::new') and x.b in ('wal_path', 'path'):
+                t.add('walpath')
+        return t
+    nfs = 0
+    for b in bodies:
+        for cs in b.calls(WRITER):
+            nfs += 1
+            name = cs.short()
+            n = sum(1 for o in ctx.obls if o.key.startswith('fs:%s@%s' % (name, b.root)))
+            key = 'fs:%s@%s#%d' % (name, b.root, n)
+            if name == 'open':
+                rcv = b.expr(cs.args[0])
+                chain = rcv.show()
+                # options built step by step (`let mut o = OpenOptions::new(); o.write(true); o.open(p)`): add every
+                # mode call made on the same local
+                roots = set(x.a for x in rcv.walk() if x.k in ('let', 'local') and isinstance(x.a, int))
+                for oc in b.calls(r'OpenOptions::(write|append|truncate|create|create_new|read)$|OpenOptionsExt>::(mode|custom_flags)$'):
+                    r2 = set(x.a for x in b.expr(oc.args[0]).walk() if x.k in ('let', 'local') and isinstance(x.a, int))
+                    if roots & r2:
+                        val = b.expr(oc.args[1]).const_value() if len(oc.args) > 1 else None
+                        if val is not False:
+                            chain += ' OpenOptions::%s(' % oc.short()
+                pe = b.expr(cs.args[1])
+                writes = re.search(r'OpenOptions::(write|create|create_new|truncate)\(', chain) is not None and 'OpenOptions::append(' not in chain
+                appends = 'OpenOptions::append(' in chain
+                tg = tags(b, pe)
+                if not writes and not appends:
+                    ctx.ob('FS-WRITERS', key, True, cs.where(), 'read-only open of %s' % pe.brief(60))
+                elif appends and 'OpenOptions::truncate(' not in chain:
+                    ctx.ob('FS-WRITERS', key, True, cs.where(), 'append-only open of %s' % pe.brief(60))
+                else:
+                    ok = bool(tg & {'tmp', 'lock', 'key'})
+                    ctx.ob('FS-WRITERS', key, ok, cs.where(),
+                           ('truncating / in-place open of a %s file' % '/'.join(sorted(tg))) if ok else
+                           ('%s is opened for writing without append (%s): a durable file is overwritten in place — its acknowledged records are '
+                            'gone after a crash or restart' % (pe.brief(60), '/'.join(sorted(tg)) or 'untagged path')), entry=b.root)
+            elif name in ('create', 'create_new', 'write'):
+                pe = b.expr(cs.args[0])
+                tg = tags(b, pe)
+                ok = bool(tg & {'tmp', 'lock', 'key'})
+                ctx.ob('FS-WRITERS', key, ok, cs.where(),
+                       ('%s of a %s file' % (name, '/'.join(sorted(tg)))) if ok else
+                       ('%s(%s) replaces a file that is not a temp / lock / key file' % (name, pe.brief(60))), entry=b.root)
+            elif name in ('rename', 'copy', 'hard_link'):
+                src, dst = b.expr(cs.args[0]), b.expr(cs.args[1])
+                ts = tags(b, src)
+                ok = name == 'rename' and (('walpath' in ts and b.root == WW + '::rotate') or
+                                           ('tmp' in ts and b.root.startswith(MGRT + '::checkpoint')))
+                ctx.ob('FS-WRITERS', key, ok, cs.where(),
+                       ('rename %s -> %s' % (src.brief(40), dst.brief(40))) if ok else
+                       ('%s(%s, %s) in %s: only rotate (active log) and checkpoint (temp snapshot) may move durable files' % (
+                           name, src.brief(40), dst.brief(40), b.root.rsplit('::', 1)[-1])), entry=b.root)
+            elif name in ('remove_file', 'remove_dir_all', 'set_len'):
+                pe = b.expr(cs.args[0])
+                tg = tags(b, pe)
+                ok = False
+                why = 'deletes %s' % pe.brief(60)
+                if name == 'remove_file' and 'lock' in tg:
+                    ok = True
+                    why = 'removes the lock marker'
+                elif name == 'remove_file' and 'tmp' in tg:
+                    ok = True
+                    why = 'removes a temp file'
+                elif name == 'remove_file' and 'found-snap' in tg and b.root.startswith(MGRT + '::cleanup_old_snapshots'):
+                    ok = True
+                    why = 'cleanup_old_snapshots removes a snapshot beyond the retention count'
+                elif name == 'remove_file' and 'found-wal' in tg and b.root.startswith(MGRT + '::cleanup_old_wal_files'):
+                    # never the active log: dominated by the false edge of `file_name == "state.wal"`
+                    skip = False
+                    for c in F.dominating_conds(b, cs.bb):
+                        if c.kind == 'bool' and not c.truth and c.expr.k == 'call' and re.search(r'PartialEq.*>::eq$', c.expr.a) and \
+                                c.expr.mentions_call(r'Path::file_name$') is not None:
+                            for a in c.expr.b:
+                                for x in a.walk():
+                                    if x.k == 'call' and re.search(r'fmt::format$|hint::must_use$', x.a):
+                                        tpl = L.string_template(prog, b, x)
+                                        if tpl and all(k == 'lit' for k, v in tpl) and ''.join(v for k, v in tpl) == active_tpl_txt:
+                                            skip = True
+                        if c.kind == 'bool' and c.truth and c.expr.k == 'call' and re.search(r'PartialEq.*>::ne$', c.expr.a) and \
+                                c.expr.mentions_call(r'Path::file_name$') is not None:
+                            skip = True
+                    ok = skip
+                    why = ('cleanup_old_wal_files removes a covered log, never the active one (skipped by name %r)' % active_tpl_txt) if skip else \
+                          'cleanup_old_wal_files can delete the ACTIVE log: the skip on its file name does not dominate the removal'
+                ctx.ob('FS-WRITERS', key, ok, cs.where(), why if ok else (why + ' — a file that may hold the only copy of acknowledged records'), entry=b.root)
+    ctx.floor('FS-WRITERS', 9)
+
 
 def _runs_before_replay(prog, b):
     root = b.root
